@@ -1385,6 +1385,7 @@ func (g *Gen) callSiteObls(st *BState, in ssa.Instruction, callee *ssa.Function,
 				env.vars[n] = ev
 			}
 		}
+		g.addrNames(b, true, env)
 		for n, ev := range args {
 			env.vars["arg_"+n] = ev
 		}
@@ -1485,6 +1486,7 @@ func (g *Gen) dynCallSiteObls(st *BState, in ssa.Instruction, c *ssa.CallCommon,
 				env.vars[k] = ev
 			}
 		}
+		g.addrNames(in.Block(), true, env)
 		for i, p := range proto.Params {
 			if i < len(c.Args) {
 				env.vars["arg_"+p.Name()] = g.argEnvVal(st, c.Args[i], p.Type())
